@@ -161,6 +161,22 @@ def ev(e, env):
                         o = ev(other, env)
                         return o if part is None else _join(part, o)
             return _join(a, b)
+        if t in ("max", "amax", "nanmax", "min", "amin", "nanmin", "mean", "average", "median"):
+            # a reduction that stays inside the range of its operand (np.max(x), x.max(), max(a, b) of scalars)
+            if isinstance(e.func, ast.Attribute) and (dotted(e.func.value) or "") not in ("np", "numpy"):
+                return ev(e.func.value, env)
+            if len(args) == 1 or (args and e.keywords):
+                return ev(args[0], env)
+            if len(args) >= 2 and (dotted(e.func) or "") in ("max", "min"):
+                rs = [ev(a, env) for a in args]
+                pick = max if t == "max" else min
+                return (pick(r[0] for r in rs), pick(r[1] for r in rs))
+            return TOP
+        if t in ("sum", "nansum") and (args or isinstance(e.func, ast.Attribute)):
+            a = ev(e.func.value, env) if isinstance(e.func, ast.Attribute) and (dotted(e.func.value) or "") not in ("np", "numpy") else ev(args[0], env)
+            return (0.0, INF) if a[0] >= 0 else (-INF, 0.0) if a[1] <= 0 else TOP
+        if t in ("norm", "Norm", "__Norm", "_Behavior__Norm", "hypot"):
+            return (0.0, INF)
         if t in ("asarray", "array", "asfearray", "copy", "ravel", "reshape", "squeeze", "real", "astype", "view", "flatten", "ascontiguousarray", "float", "float64") :
             if args:
                 return ev(args[0], env)
